@@ -320,20 +320,21 @@ def gen_part2(rng, depth=0, n=None, in_func=False, funcs=None):
         elif r < 0.84:
             lines.append("while input() == '1':")
             lines += indent(gen_part2(rng, depth + 1, rng.randint(1, 2), in_func, funcs))
-        elif r < 0.93 and not in_func and depth == 0:
+        elif r < 0.90 and not in_func and depth == 0:
             fname = 'f%d' % len(funcs)
-            funcs.append(fname)
-            params = rng.choice([[], ['p'], ['p', 'q']])
+            params = rng.choice([[], [], ['p'], ['p', 'q']])
             lines.append('def %s(%s):' % (fname, ', '.join(params)))
-            body = gen_part2(rng, depth + 1, rng.randint(1, 3), True, funcs)
+            body = gen_part2(rng, depth + 1, rng.randint(1, 3), True, funcs)     # may call the functions defined before it
+            funcs.append((fname, len(params)))
             if rng.random() < 0.5:
                 body.append('return %s' % rng.choice(P2_VARS + params if params else P2_VARS))
             lines += indent(body)
             if rng.random() < 0.8:
                 lines.append('%s(%s)' % (fname, ', '.join('1' for _ in params)))
         elif funcs:
-            f = rng.choice(funcs)
-            lines.append('%s = 5' % v)
+            # another call site of a function defined earlier: the names it reads may be set at one call site and not at another
+            f, k = rng.choice(funcs)
+            lines.append('%s(%s)' % (f, ', '.join('1' for _ in range(k))))
         else:
             lines.append('%s = 3' % v)
     return lines
@@ -361,14 +362,42 @@ def run_plain(code, decisions):
     return None
 
 
-def check_part2(ctx, code, rng):
+CALL_SITE_BODIES = ["print(a)", "t = a + 1\n    print(t)", "print(a)\n    print(b)", "print(p)\n    print(a)"]
+CALL_SITE_STATEMENTS = [
+    "a = 1", "b = 2", "f0(%(args)s)", "if input() == '1':\n    a = 1\n    f0(%(args)s)", "if input() == '1':\n    a = 1\nelse:\n    f0(%(args)s)",
+    "if input() == '1':\n    f0(%(args)s)\n    a = 1", "while input() == '1':\n    a = 1\n    f0(%(args)s)", "while input() == '1':\n    f0(%(args)s)\n    a = 1",
+    "if input() == '1':\n    a = 1\n    b = 2\n    f0(%(args)s)\nf0(%(args)s)", "if input() == '1':\n    b = 2",
+]
+
+
+def enumerate_call_sites():
+    """one function that reads module-level names, called from several places of a short main program: whether the names are
+    set differs from call site to call site (every sequence of up to three statements)"""
+    import itertools
+    for bi, body in enumerate(CALL_SITE_BODIES):
+        params = 'p' if 'print(p)' in body else ''
+        args = '1' if params else ''
+        head = 'def f0(%s):\n    %s\n' % (params, body)
+        for n in (1, 2, 3):
+            for combo in itertools.product(CALL_SITE_STATEMENTS, repeat=n):
+                if not any('f0(' in c for c in combo):
+                    continue
+                yield head + '\n'.join(c % {'args': args} for c in combo) + '\n'
+
+
+def check_part2(ctx, code, rng, exhaustive=False):
     try:
         compile(code, 'answer.py', 'exec')
     except SyntaxError:
         return
     errors = set()
-    for _ in range(24):
-        decisions = [rng.choice(['0', '1', '2', '1', '0']) for _ in range(12)]
+    if exhaustive:
+        import itertools
+        k = min(code.count('input()'), 4)
+        vectors = [list(v) + ['0'] * 8 for n in range(k + 1) for v in itertools.product(['1', '0'], repeat=n)]
+    else:
+        vectors = [[rng.choice(['0', '1', '2', '1', '0']) for _ in range(12)] for _ in range(24)]
+    for decisions in vectors:
         r = run_plain(code, decisions)
         if r and r[0] in P2_VARS + ['p', 'q']:
             errors.add(r)
@@ -473,6 +502,15 @@ def run(ctx):
         if ctx.time_left() < 2:
             break
         check_part2(ctx, '\n'.join(gen_part2(rng)) + '\n', rng)
+    # part 2b: several call sites of one function, enumerated
+    for i, code in enumerate(enumerate_call_sites()):
+        if i % ctx.nshards != ctx.shard or (ctx.quick() and (i // ctx.nshards) % 4 != 0 and code.count('\n') > 7):
+            continue
+        if ctx.time_left() < 2:
+            ctx.count('call_site_programs_not_reached_budget')
+            break
+        ctx.count('call_site_programs')
+        check_part2(ctx, code, rng, exhaustive=True)
     # the documented shape from the property text
     if ctx.shard == 0:
         for code in ("for i in range(int(input())):\n    a = i\nprint(a)\n", "while input() == '1':\n    a = 1\nprint(a)\n",
@@ -484,6 +522,6 @@ def run(ctx):
 def replay(ctx, case):
     import random
     if case.get('part') == 2:
-        check_part2(ctx, case['code'], random.Random(1))
+        check_part2(ctx, case['code'], random.Random(1), exhaustive=case['code'].startswith('def f0(') and case['code'].count('input()') <= 4)
     else:
         check_part1(ctx, case['code'])
